@@ -115,11 +115,13 @@ class FakeFinal:
         self.status = "returned"
         self.pc = []
         self.locks = []
+        self.retval = None
+        self.meta = {}
 
 
 def run_scenario_trace(injections, test_name="replay_scenario"):
     """build the native test binary from a fresh copy of /repo, run the scenario under strace"""
-    with vlib.Scratch("native", tag="strace") as scr:
+    with vlib.Scratch("native", tag="strace") as scr, vlib.native_lock():
         kprop.inject_all(scr, injections, cfg="test")
         exe = build_test_binary(scr)
         db = tempfile.mkdtemp(prefix="cassverif-db-", dir=vlib.SCRATCH_ROOT)
